@@ -252,6 +252,14 @@ func (env *Env) binary(e *spec.Binary) Value {
 			return scalar(tBool, smt.BoolLit(tok == token.EQL))
 		}
 	}
+	if _, isSl := types.Unalias(a.T).Underlying().(*types.Slice); isSl && (tok == token.EQL || tok == token.NEQ) && !isNilExpr(e.X) && !isNilExpr(e.Y) && len(a.L) == 4 && len(b.L) == 4 {
+		// specification-level slice equality: same backing array, offset, length and capacity
+		eq := smt.And(smt.Eq(a.L[0], b.L[0]), smt.Eq(a.L[1], b.L[1]), smt.Eq(a.L[2], b.L[2]), smt.Eq(a.L[3], b.L[3]))
+		if tok == token.NEQ {
+			eq = smt.Not(eq)
+		}
+		return scalar(tBool, eq)
+	}
 	if (tok == token.EQL || tok == token.NEQ) && len(a.L) == 1 && len(b.L) == 1 && a.L[0].Sort == smt.Bool {
 		eq := smt.Eq(a.L[0], b.L[0])
 		if tok == token.NEQ {
@@ -260,6 +268,11 @@ func (env *Env) binary(e *spec.Binary) Value {
 		return scalar(tBool, eq)
 	}
 	return env.x.binop(env.st, nil, tok, a, b, rt)
+}
+
+func isNilExpr(e spec.Expr) bool {
+	id, ok := e.(*spec.Ident)
+	return ok && id.Name == "nil"
 }
 
 // ident resolves a bare identifier.
@@ -639,6 +652,12 @@ func (env *Env) quant(e *spec.Quant) Value {
 	c := env.child()
 	c.bound = copyMap(env.bound)
 	c.bound[e.Var] = scalar(t, smt.Sym(vn, ls[0].Sort))
+	// evaluation under a binder must not create named definitions or assumptions mentioning the bound variable
+	c.st = env.st.clone()
+	if env.old != nil {
+		c.old = env.old
+	}
+	en.ctx.NoName++
 	// Quantifiers over slice positions are stated over the absolute index of a pivot slice, so that the
 	// select itself is the pattern (offset arithmetic inside a select defeats E-matching).
 	if piv := findPivot(e.Body, e.Var); piv != nil && ls[0].Sort == bv64 {
@@ -650,19 +669,13 @@ func (env *Env) quant(e *spec.Quant) Value {
 					}
 				}
 			}()
-			pv := env.eval(piv)
+			pv := c.eval(piv)
 			if _, ok := types.Unalias(pv.T).Underlying().(*types.Slice); ok {
 				off := pv.L[slOff]
 				c.bound[e.Var] = scalar(t, smt.Term{S: "(bvsub " + vn + " " + off.S + ")", Sort: bv64})
 			}
 		}()
 	}
-	// evaluation under a binder must not create named definitions or assumptions mentioning the bound variable
-	c.st = env.st.clone()
-	if env.old != nil {
-		c.old = env.old
-	}
-	en.ctx.NoName++
 	body := c.evalBool(e.Body)
 	en.ctx.NoName--
 	pats := selectPatterns(body.S, vn)
